@@ -50,7 +50,9 @@ Inductive when := Rel (d : Z) | Abs (t : Z) | Now.
 (* result of one call of a periodic action on a state:
    notes = observable side effects (handler calls of a CatchScheduler wrapper) *)
 Inductive pres :=
-  | PNext (notes : list Z) (st : Z)        (* returns the next state *)
+  | PNext (notes : list Z) (sl : N) (st : Z)
+      (* advances the virtual clock by sl microseconds (scheduler.sleep(sl) inside the action: the
+         action takes virtual time), then returns the next state st *)
   | PNextDisposed (notes : list Z)         (* disposes the periodic subscription, then returns *)
   | PRaise (notes : list Z) (e : Z)        (* raises e *)
   | PHandled (notes : list Z) (e : Z) (v : bool).
@@ -242,8 +244,8 @@ Definition resched_disposed (s : st) (pid : nat) (period : Z) : bres :=
   BOk (cancel_id (enqueue s2 (clock s2 + period) (PPer pid 0)) nid).
 
 (* ScheduledItem.invoke for a non-cancelled item.  For a PPer payload this is the
-   [periodic] closure of PeriodicScheduler.schedule_periodic (virtual time: the
-   action takes no time, so the next delay is exactly the period). *)
+   [periodic] closure of PeriodicScheduler.schedule_periodic; the next delay is the
+   period minus the virtual time the action took. *)
 Definition invoke (s : st) (p : payload) : bres :=
   match p with
   | PAct _ b => exec_body s b
@@ -257,10 +259,16 @@ Definition invoke (s : st) (p : payload) : bres :=
             match plookup (p_fn pi) stt with
             | PRaise ns e =>                      (* except: disp.dispose(); raise *)
                 BRaise e (dispose_per (add_log (add_notes s1 ns) (ERaise e)) pid)
-            | PNext ns st' =>                     (* disp.disposable = schedule_relative(period, periodic, st') *)
+            | PNext ns sl st' =>
+                (* now = scheduler.now; state = action(state)   -- the action sleeps sl *)
                 let s2 := add_notes s1 ns in
-                let s3 := set_pers s2 (set_nth pid (PInfo (p_period pi) (p_fn pi) (p_disposed pi) (next_id s2)) (pers s2)) in
-                BOk (enqueue s3 (clock s3 + p_period pi) (PPer pid st'))
+                let s2' := set_clock s2 (clock s2 + Z.of_N sl) in
+                (* time = seconds - (scheduler.now - now).total_seconds()
+                   disp.disposable = scheduler.schedule_relative(time, periodic, st')
+                   (schedule_relative does not clamp: a negative delay gives a due time in the past) *)
+                let elapsed := clock s2' - clock s in
+                let s3 := set_pers s2' (set_nth pid (PInfo (p_period pi) (p_fn pi) (p_disposed pi) (next_id s2')) (pers s2')) in
+                BOk (enqueue s3 (clock s3 + (p_period pi - elapsed)) (PPer pid st'))
             | PNextDisposed ns =>                 (* the action disposed disp; the new item is disposed at once *)
                 resched_disposed (add_notes s1 ns) pid (p_period pi)
             | PHandled ns e v =>
